@@ -26,3 +26,9 @@ def c09_two_assignments_two_salts(p, alg):
     d1 = DigestValue.create(p, alg)
     d2 = DigestValue.create(p, alg)
     assert d1.salt == rand_bytes(old(glob('rand_ctr'))) and d2.salt == rand_bytes(old(glob('rand_ctr')) + 1), "C09.each-assignment-draws-a-new-salt"
+
+
+def c09_stored_pair_loads_back(f, cfg, d):
+    b = f.to_basic(cfg, d)
+    r = f.to_python(cfg, b)
+    assert r.salt == d.salt and r.digest == d.digest and r.algorithm is f.algorithm, "C09.what-was-saved-loads-back-as-the-same-salt-and-digest"
